@@ -1108,8 +1108,25 @@ func (a *AMF) onServiceRequest(u *UE, plain []byte) [][]byte {
 		a.violate("service/tmsi-length", "5G-S-TMSI length %d exceeds the message", n)
 		return nil
 	}
-	if _, err := refnas.ParseOptional(plain[6+n:], refnas.ServiceRequestIEs); err != nil {
+	opt, err := refnas.ParseOptional(plain[6+n:], refnas.ServiceRequestIEs)
+	if err != nil {
 		a.violate("service/optional-ies", "Service Request: %v", err)
+	}
+	// the sessions the UE asks to have re-activated (uplink data status, TS 24.501 9.11.3.57) are its own
+	if ud := refnas.Find(opt, "Uplink data status"); ud != nil && len(ud.Value) >= 2 {
+		var named []int
+		for psi := 0; psi < 16; psi++ {
+			if ud.Value[psi/8]&(1<<uint(psi%8)) != 0 {
+				named = append(named, psi)
+			}
+		}
+		switch {
+		case len(named) == 1 && named[0] == int(u.PSI):
+		case len(named) == 1 && named[0] == 10:
+			a.violate("service/uplink-data-status-is-the-constant-session-10", "Service Request of %s names session 10 for re-activation, the UE's session is %d", u.Supi, u.PSI)
+		default:
+			a.violate("service/uplink-data-status-names-other-sessions", "Service Request of %s names sessions %v for re-activation, the UE's session is %d", u.Supi, named, u.PSI)
+		}
 	}
 	if u.Sess != seActive {
 		a.violate("prerequisite/service-request-without-session", "Service Request (data) from %s whose PDU session is %s", u.Supi, seNames[u.Sess])
